@@ -34,8 +34,93 @@ def oracle(op, line):
     return (None, None, None)
 
 
+def session_part(chk):
+    """the call sites: the real server (h_srv) must accept exactly md5-login(challenge) in DNS mode and md5-login(challenge+1) in raw
+    mode and answer raw mode with md5-login(challenge-1); the real client (h_cli) must send exactly those for every password.
+    The expected values come from hashlib on the documented block."""
+    import struct, random
+    import iodclient as C
+    import iodproto as P
+    import srvgen
+    rng, thorough = chk.rng, chk.tier == "thorough"
+    bad, n = 0, 0
+    srv = vlib.build_srv()
+    cli = vlib.build_cli()
+    seeds = [0, 1, 0x7fffffff, 0x7ffffffe, 0x12345678] + [rng.randrange(1 << 31) for _ in range(6 if thorough else 2)]
+    pws = [b"", b"a", b"secret", bytes(range(1, 32)), bytes(range(1, 33)), bytes(range(1, 41)), b"l\xc3\xb6senord", b"\xff" * 32] + \
+          [bytes(rng.randrange(1, 256) for _ in range(rng.randrange(0, 41))) for _ in range(8 if thorough else 3)]
+    td = b"t.example.com"
+    for pw in pws:
+        for seed in seeds:
+            # ---- server side
+            h = srvgen.Harness(srv)
+            src = "4:0a630004:5353"
+            c = C.Client(td, pw, random.Random(1)); c.seed = seed; c.userid = 0
+            h.send("cfg 1 %s 0a000001 27 %s 1130 00000000 0 7f000001 %s" % (vlib.hx(pw), vlib.hx(td), "00" * 15 + "01"))
+            h.send("rand %d" % seed)
+            st = h.send("q %s 11 10 %s" % (src, vlib.hx(c.version())))
+            why = None
+            wrong = h.send("q %s 12 10 %s" % (src, vlib.hx(c.login(seed=(seed + 1) & 0xffffffff)))) if st else None
+            good = h.send("q %s 13 10 %s" % (src, vlib.hx(c.login()))) if wrong else None
+            if good is None:
+                why = "server harness aborted: %s" % (h.dead[2][-600:] if h.dead else "?")
+            else:
+                if not any(e[0] == "ans" and vlib.unhx(e[6]) == b"LNAK" for e in wrong.events):
+                    why = "DNS login with the response for challenge+1 was not refused"
+                elif not any(e[0] == "ans" and vlib.unhx(e[6]).count(b"-") == 3 for e in good.events):
+                    why = "DNS login with md5(pass32 xor challenge x8) was refused"
+            if why is None:
+                for delta, expect in ((0, False), (2, False), (-1, False), (1, True)):
+                    frame = c.raw_frame(0x10, C.login_hash(pw, (seed + delta) & 0xffffffff))
+                    st = h.send("dns %s %s" % (src, vlib.hx(frame)))
+                    if st is None:
+                        why = "server harness aborted: %s" % (h.dead[2][-600:] if h.dead else "?"); break
+                    rw = [e for e in st.events if e[0] == "raw"]
+                    if expect:
+                        want = C.RAW_HEADER[:3] + bytes([0x10]) + C.login_hash(pw, (seed - 1) & 0xffffffff)
+                        if not rw or vlib.unhx(rw[0][2]) != want:
+                            why = "raw login with the response for challenge+1 was answered with %s, documented answer is the response for challenge-1 (%s)" % (rw[0][2] if rw else "nothing", vlib.hx(want))
+                    elif rw:
+                        why = "raw login with the response for challenge%+d was accepted" % delta
+                    if why:
+                        break
+            h.close()
+            n += 8
+            if why:
+                chk.violation("C19 fails on the implementation (server, challenge %#x, password of %d bytes): %s" % (seed, len(pw), why), [s_.op for s_ in h.steps], key="c19:srv")
+                bad += 1
+            # ---- client side
+            sd = seed if seed < (1 << 31) else seed - (1 << 32)
+            ops = ["ccfg %s %s 255 10 T 0 5 0 1 0" % (vlib.hx(td), vlib.hx(pw)), "start sendone login %d" % sd, "start sendone rawlogin %d" % sd]
+            r = vlib.run_lines(cli, ops)
+            n += 2
+            why = None
+            if r.rc or len(r.lines) < 3:
+                why = "client harness aborted: " + r.stderr[-600:]
+            else:
+                tx = [e for e in r.lines[1].split(" | ") if e.startswith("tx ")]
+                rt = [e for e in r.lines[2].split(" | ") if e.startswith("rawtx ")]
+                try:
+                    name = P.parse(vlib.unhx(tx[0].split()[1]))["qd"][0][0]
+                    data = P.dec("b32", bytes(ch for ch in name[1:len(name) - len(td) - 1] if ch != 46))
+                    if bytes(data[1:17]) != C.login_hash(pw, seed):
+                        why = "client's DNS login carries %s, documented response is %s" % (vlib.hx(bytes(data[1:17])), vlib.hx(C.login_hash(pw, seed)))
+                except Exception as e:
+                    why = "client sent no parsable login query (%s)" % e
+                if why is None:
+                    want = C.RAW_HEADER[:3] + bytes([0x10]) + C.login_hash(pw, (seed + 1) & 0xffffffff)
+                    if not rt or vlib.unhx(rt[0].split()[1]) != want:
+                        why = "client's raw login is %s, documented is the response for challenge+1 (%s)" % (rt[0].split()[1] if rt else None, vlib.hx(want))
+            if why:
+                chk.violation("C19 fails on the implementation (client, challenge %#x, password of %d bytes): %s" % (seed, len(pw), why), ops, key="c19:cli")
+                bad += 1
+    chk.notes["session_ops"] = n
+    return bad, n
+
+
 def run(chk):
     rng, thorough = chk.rng, chk.tier == "thorough"
+    sbad, sn = session_part(chk)
     ops = ["md5selftest"]
     for n in list(range(0, 201)) + [255, 256, 257, 1000]:
         for _ in range(3 if thorough else 1):
@@ -61,9 +146,9 @@ def run(chk):
             "distinct by (kind, length, challenge class)")
     c, m, diffs, bad = vlib.pure_check(chk, ops, lambda o, l: (None, None, None) if o == "md5selftest" else oracle(o, l), rule,
                                        "Login.md5/loginCalcC vs md5.c/login.c")
-    if c.lines and c.lines[0] != "bad-op":
-        pass
-    chk.assumptions.append("raw-mode challenge+1/-1 call sites (client.c, iodined.c) are exercised by the session harness checks (C03), here the blocks are proved distinct")
+    chk.cov["evaluations"] = chk.cov.get("evaluations", 0) + sn
+    chk.cov["rule"] += ("; call sites: real server (h_srv) accepts exactly the documented DNS and raw (challenge+1) responses and answers raw mode with challenge-1, real client "
+                        "(h_cli) sends them, for boundary/random challenges x passwords of 0..40 bytes incl. bytes >= 0x80")
 
 
 def replay(chk, path):
